@@ -469,6 +469,12 @@ def rule_crc_whole_register(prog, fixture=False):
             callee = strip(n["c"][0])
             if not callee or callee.get("n") != "get" or "CRC" not in notpl(n.get("q") or "").upper():
                 continue
+            # the property is about the CRC-16/CCITT of ID and data fields: reads of a CCITT register (the
+            # tape/XMODEM CRC written into .inf files is reported, never tested)
+            recv = strip_all(callee["c"][0]) if callee.get("c") else None
+            rt = ((recv or {}).get("ct") or (recv or {}).get("t") or "")
+            if "TapeCRC" in rt:
+                continue
             origin = fn.loc(n)
             uses = []
             _crc_value_uses(prog, fn, n, set(), uses, origin)
